@@ -15,6 +15,7 @@ import NxsModel.Spec.StreamWire
 import NxsModel.Spec.Wire
 import NxsModel.Lemmas.Stream
 import NxsModel.Lemmas.Serial
+import NxsModel.Lemmas.R7Stream
 namespace Nxs.C15
 open Nxs Nxs.Stream Nxs.Spec Nxs.Spec.StreamWire Nxs.Gen.Ids
 
@@ -164,6 +165,121 @@ example :
       [0, 2, 0x68, 0x69, 0, 0, 0, 0x80, 0xfe, 5, 1, 0xfe, 0xff, 0xff, 0xff, 0xff, 0xff, 0xff, 0xff] =
       .ok (some (0, [⟨2, dtCHAR, 4, 0, [.text [0x68, 0x69, 0, 0]], []⟩,
         ⟨0, dtNUM, 1, 1, [.fixed (-384) 8], [5]⟩, ⟨1, dtNUM, 1, 0, [.int (-2)], []⟩])) := by
+  decide +kernel
+
+/-! ### round 7: length of an encoded batch and the exact frame / refusal boundary, the encoder over concatenated
+    batches, skipped samples are invisible, no two batches are confused on the wire -/
+
+theorem decodedForm_chan_eq (user : List UserType) (s : Sample) : (decodedForm user s).chan = s.chan := by
+  unfold decodedForm
+  split <;> rfl
+
+/-- the size of what the device emits, from the layout alone: the payload of a representable batch is the flags
+    byte plus, per sample that carries data or metadata, 1 + (size of the type) × vdim + mlen bytes
+    (`Stream.sampleSize`); samples that carry nothing contribute nothing -/
+theorem encode_length (user : List UserType) (L : List Chan) (ss : List Sample)
+    (hrep : ∀ s ∈ ss, Representable user s) (hL : LayoutAgrees L ss) (hne : ∃ s ∈ ss, carries s = true) :
+    ∃ p, Stream.streamDataEncode user ss = .ok (some p) ∧
+      p.length = 1 + ((ss.filter carries).map (fun s => Stream.sampleSize L user s.chan)).sum := by
+  obtain ⟨body, he, hw⟩ := encode_is_wire user L ss hrep hL hne
+  refine ⟨0 :: body, he, ?_⟩
+  have := Stream.wireOf_length hw
+  simp only [List.map_map, Function.comp_def, decodedForm_chan_eq] at this
+  simp only [List.length_cons, this]
+  omega
+
+/-- the exact frame / refusal boundary of `frame_stream_encode` in terms of the layout: with
+    `n = 1 + Σ sampleSize` (over the samples that carry something), a frame is emitted — and is exactly `n + 6`
+    bytes long — when `n ≤ 65529`, and the call fails, emitting nothing, when `n > 65529` (finding F17) -/
+theorem frame_emitted_iff_fits (user : List UserType) (L : List Chan) (ss : List Sample)
+    (hrep : ∀ s ∈ ss, Representable user s) (hL : LayoutAgrees L ss) (hne : ∃ s ∈ ss, carries s = true) :
+    (1 + ((ss.filter carries).map (fun s => Stream.sampleSize L user s.chan)).sum ≤ 65529 →
+      ∃ f, Stream.frameStreamEncode user ss = .ok (some f) ∧
+        f.length = 7 + ((ss.filter carries).map (fun s => Stream.sampleSize L user s.chan)).sum) ∧
+    (1 + ((ss.filter carries).map (fun s => Stream.sampleSize L user s.chan)).sum > 65529 →
+      ∃ e, Stream.frameStreamEncode user ss = .error e) := by
+  obtain ⟨p, he, hl⟩ := encode_length user L ss hrep hL hne
+  constructor
+  · intro hfit
+    refine ⟨wire 1 p, ?_, ?_⟩
+    · unfold Stream.frameStreamEncode
+      rw [he, ok_bind]
+      simp only [Serial.frameCreate_eq idSTREAM p (by omega) (by decide), ok_bind]
+      rfl
+    · rw [Serial.wire_length, hl]; omega
+  · intro hbig
+    exact refuses_oversize user ss p he (by omega)
+
+/-- the encoder over concatenated batches: the payload of `ss₁ ++ ss₂` is the flags byte followed by the sample
+    bytes of `ss₁` and then those of `ss₂` — encoding is a homomorphism on the sample bytes, so the order on the
+    wire is the order of the list and no sample's bytes depend on its neighbours -/
+theorem encode_concat (user : List UserType) (L : List Chan) (ss₁ ss₂ : List Sample)
+    (hrep₁ : ∀ s ∈ ss₁, Representable user s) (hrep₂ : ∀ s ∈ ss₂, Representable user s)
+    (hL₁ : LayoutAgrees L ss₁) (hL₂ : LayoutAgrees L ss₂)
+    (hne₁ : ∃ s ∈ ss₁, carries s = true) (hne₂ : ∃ s ∈ ss₂, carries s = true) :
+    ∃ b₁ b₂, Stream.streamDataEncode user ss₁ = .ok (some (0 :: b₁)) ∧
+      Stream.streamDataEncode user ss₂ = .ok (some (0 :: b₂)) ∧
+      Stream.streamDataEncode user (ss₁ ++ ss₂) = .ok (some (0 :: (b₁ ++ b₂))) := by
+  obtain ⟨b₁, he₁, hw₁⟩ := encode_is_wire user L ss₁ hrep₁ hL₁ hne₁
+  obtain ⟨b₂, he₂, hw₂⟩ := encode_is_wire user L ss₂ hrep₂ hL₂ hne₂
+  have hrep : ∀ s ∈ ss₁ ++ ss₂, Representable user s := by
+    intro s hs
+    rcases List.mem_append.mp hs with h | h
+    · exact hrep₁ s h
+    · exact hrep₂ s h
+  have hL : LayoutAgrees L (ss₁ ++ ss₂) := by
+    intro s hs
+    rcases List.mem_append.mp hs with h | h
+    · exact hL₁ s h
+    · exact hL₂ s h
+  obtain ⟨s₀, hs₀, hc₀⟩ := hne₁
+  obtain ⟨b, he, hw⟩ := encode_is_wire user L (ss₁ ++ ss₂) hrep hL ⟨s₀, List.mem_append_left _ hs₀, hc₀⟩
+  rw [List.filter_append, List.map_append, wireOf_append hw₁ hw₂] at hw
+  refine ⟨b₁, b₂, he₁, he₂, ?_⟩
+  rw [he, ← Option.some.inj hw]
+
+/-- samples that carry neither data nor metadata are invisible: the encoder's output for a batch is its output
+    for the batch with those samples removed, wherever they stand in the list -/
+theorem skipped_invisible (user : List UserType) (L : List Chan) (ss : List Sample)
+    (hrep : ∀ s ∈ ss, Representable user s) (hL : LayoutAgrees L ss) (hne : ∃ s ∈ ss, carries s = true) :
+    Stream.streamDataEncode user ss = Stream.streamDataEncode user (ss.filter carries) := by
+  obtain ⟨b, he, hw⟩ := encode_is_wire user L ss hrep hL hne
+  have hrep' : ∀ s ∈ ss.filter carries, Representable user s := fun s hs => hrep s (List.mem_filter.mp hs).1
+  have hL' : LayoutAgrees L (ss.filter carries) := fun s hs => hL s (List.mem_filter.mp hs).1
+  obtain ⟨s₀, hs₀, hc₀⟩ := hne
+  obtain ⟨b', he', hw'⟩ := encode_is_wire user L (ss.filter carries) hrep' hL'
+    ⟨s₀, List.mem_filter.mpr ⟨hs₀, hc₀⟩, hc₀⟩
+  rw [List.filter_filter] at hw'
+  simp only [Bool.and_self] at hw'
+  rw [hw] at hw'
+  rw [he, he', Option.some.inj hw']
+
+/-- no two batches are confused on the wire: representable batches with the same encoder output are seen by the
+    client as the same samples (the encoder is injective up to skipped samples and NUL padding of text) -/
+theorem encode_injective (user : List UserType) (L : List Chan) (ss ss' : List Sample)
+    (hrep : ∀ s ∈ ss, Representable user s) (hL : LayoutAgrees L ss) (hne : ∃ s ∈ ss, carries s = true)
+    (hrep' : ∀ s ∈ ss', Representable user s) (hL' : LayoutAgrees L ss') (hne' : ∃ s ∈ ss', carries s = true)
+    (h : Stream.streamDataEncode user ss = Stream.streamDataEncode user ss') :
+    (ss.filter carries).map (decodedForm user) = (ss'.filter carries).map (decodedForm user) := by
+  obtain ⟨p, he, hd⟩ := stream_roundtrip user L ss hrep hL hne
+  obtain ⟨p', he', hd'⟩ := stream_roundtrip user L ss' hrep' hL' hne'
+  rw [he, he'] at h
+  have hp : p = p' := Option.some.inj (Except.ok.inj h)
+  rw [hp, hd'] at hd
+  have h3 := Except.ok.inj hd
+  injection h3 with h4
+  injection h4 with _ h5
+  exact h5.symm
+
+/-- non-vacuity: the batch of the concrete round trip above under its layout — 19 = 1 + (5 + 4 + 9) bytes, the empty
+    B8 sample contributing nothing -/
+example :
+    1 + (([⟨2, tyCHAR, 4, 0, [.text [0x68, 0x69]], []⟩, ⟨0, tyB8, 1, 1, [], []⟩,
+       ⟨0, tyB8, 1, 1, [.fixed (-384) 8], [5]⟩, ⟨1, tyINT64, 1, 0, [.int (-2)], []⟩].filter carries).map
+        (fun s => Stream.sampleSize [⟨tyB8, 1, 1⟩, ⟨tyINT64, 1, 0⟩, ⟨tyCHAR, 4, 0⟩] [] s.chan)).sum = 19 := by
+  decide +kernel
+example : (∀ s ∈ [(⟨2, tyCHAR, 4, 0, [.text [0x68, 0x69]], []⟩ : Sample), ⟨0, tyB8, 1, 1, [], []⟩,
+       ⟨0, tyB8, 1, 1, [.fixed (-384) 8], [5]⟩, ⟨1, tyINT64, 1, 0, [.int (-2)], []⟩], Representable [] s) := by
   decide +kernel
 
 end Nxs.C15
